@@ -261,7 +261,7 @@ class Gen(object):
         if fn.kind == "coro":
             self.emit(fn, ind, "await trap(W, F, %d)" % pid)
         elif fn.kind == "agen":
-            c = t.weighted([3, 1, 1])
+            c = t.weighted([3, 2, 2] if fn.index == 0 else [3, 1, 1])
             if c == 0:
                 self.emit(fn, ind, "await trap(W, F, %d)" % pid)
             elif c == 1:
